@@ -3,6 +3,7 @@ package main
 import (
 	"encoding/json"
 	"fmt"
+	simdjson "github.com/minio/simdjson-go"
 	"math"
 	"math/big"
 	"strconv"
@@ -233,6 +234,15 @@ func suiteND(rn *runner, r *rng, tier string) {
 	if tier == "thorough" {
 		n = 60000
 	}
+	// a ParsedJson kept by value from an earlier successful call of this suite, handed to later calls as the reuse
+	// argument (it survives failed calls): what ParseND accepts and exposes must not depend on it
+	var carry *simdjson.ParsedJson
+	// only Parse hands the internal parser state back to the caller (ParseND's result has none), so the object comes
+	// from a plain Parse
+	if pj0, err := simdjson.Parse([]byte(`{"seed":[1,2,3]}`), nil); err == nil {
+		h := *pj0
+		carry = &h
+	}
 	for i := 0; i < n; i++ {
 		cr := r.fork()
 		cfg := defaultCfg(cr)
@@ -262,7 +272,18 @@ func suiteND(rn *runner, r *rng, tier string) {
 			// keep replies small for long inputs: compare hashes and the oracle verdict only
 			tc.ops = []string{tc.ops[0], "tapehash p", tc.ops[len(tc.ops)-1]}
 		}
-		rn.add(tc)
+		if carry != nil && cr.chance(1, 2) {
+			reuse := carry
+			first := true
+			rn.addWith(tc, func() {
+				if first {
+					nextParse.reuse = reuse
+					first = false
+				}
+			})
+		} else {
+			rn.add(tc)
+		}
 		blank := 0
 		for _, l := range lines {
 			if strings.TrimSpace(l) == "" {
